@@ -188,6 +188,58 @@ def evaluate(cfg, only=None, res=None):
     return out
 
 
+def check_fromprim(res=None):
+    """modeldisc.fdata_fromprim: a uniform primitive state given as scalars (a 2-vector for the 2D velocity) becomes the conservative field of that state"""
+    out = []
+    for kind, g in (("euler1d", 1.4), ("euler1d", 1.05), ("nozzle", 1.4), ("euler2d", 1.4), ("euler2d", 2.0), ("shallowwater", 9.81), ("convection", None), ("burgers", None)):
+        for rho, M, p in ((1.0, 0.0, 1.0), (1e-3, 0.3, 1e3), (1e3, -3.0, 1e-3), (0.3, 30.0, 0.3)):
+            if kind == "euler2d":
+                model = space.euler.euler2d(gamma=g)
+                msh = space.mesh2.mesh2d(3, 2, 1.0, 1.0)
+                disc = space.modeldisc.fvm2d(model, msh, space.xnum.extrapol2d1(), {t: {"type": "per"} for t in ("left", "right", "top", "bottom")})
+                c = np.sqrt(g * p / rho)
+                V = [0.6 * M * c, -0.8 * M * c]
+                f = disc.fdata_fromprim([rho, V, p])
+                want = [np.full(6, rho), np.array([[rho * V[0]] * 6, [rho * V[1]] * 6]), np.full(6, p / (g - 1) + 0.5 * rho * (M * c) ** 2)]
+                cond = 1 + g * M * M
+            elif kind in ("euler1d", "nozzle"):
+                model = space.euler.euler1d(gamma=g) if kind == "euler1d" else space.euler.nozzle(space.SECTION_LAWS["parab"], gamma=g)
+                m = space.mesh_spec(("uni", 4, 1.0, 0.0))
+                disc = space.modeldisc.fvm(model, m, space.xnum.extrapol1())
+                c = np.sqrt(g * p / rho)
+                f = disc.fdata_fromprim([rho, M * c, p])
+                want = [np.full(4, rho), np.full(4, rho * M * c), np.full(4, p / (g - 1) + 0.5 * rho * (M * c) ** 2)]
+            elif kind == "shallowwater":
+                model = space.shallow.shallowwater1d(g=g)
+                m = space.mesh_spec(("uni", 4, 1.0, 0.0))
+                disc = space.modeldisc.fvm(model, m, space.xnum.extrapol1())
+                u = M * np.sqrt(g * rho)
+                f = disc.fdata_fromprim([rho, u])
+                want = [np.full(4, rho), np.full(4, rho * u)]
+            else:
+                model = space.make_model((kind, 1.5) if kind == "convection" else (kind,))
+                m = space.mesh_spec(("uni", 4, 1.0, 0.0))
+                disc = space.modeldisc.fvm(model, m, space.xnum.extrapol1())
+                f = disc.fdata_fromprim([M])
+                want = [np.full(4, M)]
+            if res is not None:
+                res.evals += 1
+                res.nontrivial += 1 if M != 0 else 0
+            for k, (got, w) in enumerate(zip(f.data, want)):
+                got = np.asarray(got, float)
+                if got.shape != w.shape or not np.all(np.abs(got - w) <= K * EPS * (np.abs(w).max() + 1e-300)):
+                    out.append(("C17/%s/fdata_fromprim/component%d" % (kind, k), "%s gamma|g=%r state (%g, M=%g, %g): fdata_fromprim gives %r, expected %r" % (
+                        kind, g, rho, M, p, got.tolist(), w.tolist()), 0))
+    return out
+
+
+def shard_fromprim(_):
+    res = core.Res()
+    for s, w, i in check_fromprim(res):
+        res.violation(s, w, {"cfg": ["fromprim", None, {}], "index": 0})
+    return res
+
+
 def configs(tier):
     th = tier == "thorough"
     gs = [1.4, 1.05, 5.0 / 3.0, 2.0]
@@ -215,9 +267,12 @@ def shard(cfg):
 
 def run(ctx):
     ctx.pmap("variables", shard, configs(ctx.tier))
+    ctx.pmap("fdata_fromprim", shard_fromprim, [0])
 
 
 def replay(case):
+    if case["cfg"][0] == "fromprim":
+        return [(s, w) for s, w, _ in check_fromprim()]
     cfg = (case["cfg"][0], case["cfg"][1], case["cfg"][2])
     v = evaluate(cfg, None)
     i = case["index"]
